@@ -38,7 +38,7 @@ PY
   echo "affected packages: $(echo $PKGS | wc -w)"
 fi
 (cd "$REPO" && go test -mod=mod -json -vet=off -count=1 -timeout 25m $PKGS > "$OUT" 2>/dev/null)
-python3 - "$OUT" "$PATCH" <<'PY'
+python3 - "$OUT" "$PATCH" "$(cd $REPO && pwd -P)" <<'PY'
 import json,sys
 base=json.load(open('/root/.vp/BASELINE.json'))
 want=set(base['stable_pass'])
@@ -48,7 +48,7 @@ for l in open(sys.argv[1]):
     except: continue
     if e.get('Package'): pkgs.add(e['Package'])
     if e.get('Action') in ('pass','fail','skip') and e.get('Test'):
-        res[e['Package']+'::'+e['Test']]=e['Action']
+        res[e['Package']+'::'+e['Test'].replace(sys.argv[3]+'/','/repo/')]=e['Action']  # subtest names embed absolute testdata paths
 if sys.argv[2]:
     want=set(t for t in want if t.split('::')[0] in pkgs)
 missing=[t for t in sorted(want) if res.get(t)!='pass']
